@@ -165,3 +165,61 @@ Example C06_example_operands_25_digits :
   fnumber_operands (FNum (FDec false (s "1") (s "5")) (NOptions Cardinal StyleDecimal None CurSymbol true None (Some 25%N) None None None))
   = Done (Operands (FDec false (s "1") (s "5")) 1 25 1 u64_max 5).
 Proof. vm_compute. reflexivity. Qed.
+
+(* ---------- bounded work ---------- *)
+From FluentV Require Import Bundle.ResolverBounds.
+
+Section C06_bounds.
+Variable overflow_checks : bool.
+Variable call_function : bytes -> list fvalue -> fargs -> fvalue.
+Variable transform : option (bytes -> bytes).
+Variable formatter : option (fvalue -> option bytes).
+Variable rules : ntype -> rules_fn.
+Variable custom_as_string : bytes -> bytes.
+Variable unescape_write : bytes -> bytes.
+Variable unescape_to_string : bytes -> bytes.
+Variable f64_from_str : bytes -> option fval.
+Variable b : bundle.
+Variable args : option fargs.
+Variable p : pattern.
+Variable intls : intl_cache.
+(* C = a bound on the number of elements of any pattern and on the number of function-call sites of
+   any one placeable expression, over p, the bundle's patterns and the variant patterns inside
+   them (ResolverBounds.v sz_pattern); C <= size of the resources *)
+Variable C : nat.
+Hypothesis HC : forall q, In q (bundle_patterns b) -> sz_pattern q <= C.
+Hypothesis Hp : sz_pattern p <= C.
+
+(* "invocation count of a registered function": at most (MAX_PLACEABLES + 1) x C invocations per call,
+   through either entry point, for every fuel (i.e. whenever the call returns) *)
+Theorem C06_calls_bounded :
+  (forall fuel text sc,
+     format_pattern overflow_checks call_function transform formatter rules custom_as_string
+       unescape_write unescape_to_string f64_from_str b args fuel p intls = Done (text, sc) ->
+     length (sc_calls sc) <= (N.to_nat MAX_PLACEABLES + 1) * C) /\
+  (forall fuel toks sc,
+     write_pattern overflow_checks call_function transform formatter rules custom_as_string
+       unescape_write unescape_to_string f64_from_str b args fuel p intls = Done (toks, sc) ->
+     length (sc_calls sc) <= (N.to_nat MAX_PLACEABLES + 1) * C).
+Proof.
+  split.
+  - intros fuel text sc H. eapply format_pattern_bounds; eassumption.
+  - intros fuel toks sc H. eapply write_pattern_bounds; eassumption.
+Qed.
+
+(* "the output is bounded by a fixed multiple of the combined size of resources and arguments".
+   PARTIAL: what is proved is a bound on the NUMBER of pieces written — text elements, printed
+   values, `{reference}` fallbacks, isolation marks — : at most C + (MAX_PLACEABLES + 1) x (C + 8).
+   A bound in bytes would need a bound on every piece; one kind of piece has none in the code:
+   a number prints with `minimum_fraction_digits` zeros, and NUMBER(1, minimumFractionDigits:
+   99999999999) makes FluentNumber::as_string ask for ~10^11 bytes (finding D11).  Not proved
+   here either: that text elements, argument strings and function results are each bounded by
+   the input size (true by construction for the first two; a hypothesis on user functions). *)
+Theorem C06_bounded_partial :
+  forall fuel toks sc,
+    write_pattern overflow_checks call_function transform formatter rules custom_as_string
+      unescape_write unescape_to_string f64_from_str b args fuel p intls = Done (toks, sc) ->
+    length toks <= C + (N.to_nat MAX_PLACEABLES + 1) * (C + 8).
+Proof. intros fuel toks sc H. eapply write_pattern_bounds; eassumption. Qed.
+
+End C06_bounds.
